@@ -137,43 +137,74 @@ def sweep_db(path, ps):
     return gen.describe(path)
 
 
+def _worker_once(h, todo, d, name, limit):
+    """one worker process over `todo`; returns (results, image the process died on or None, killed by the time limit?, stderr)"""
+    inp, out = os.path.join(d, name + "-in.ndjson"), os.path.join(d, name + "-out.ndjson")
+    common.write_ndjson(inp, todo)
+    p = subprocess.run(["timeout", "-s", "KILL", str(limit), h, "worker", inp, out], stdout=subprocess.PIPE, stderr=subprocess.PIPE,
+                       env=dict(os.environ, GOMEMLIMIT="6GiB", GOMAXPROCS="4"))
+    results, started = {}, None
+    if os.path.exists(out):
+        for line in open(out):
+            try:
+                r = json.loads(line)
+            except ValueError:
+                continue
+            if "start" in r:
+                started = r["start"]
+            else:
+                results[r["id"]] = r
+                started = None
+    for f_ in (inp, out):
+        if os.path.exists(f_):
+            os.remove(f_)
+    if p.returncode == 0:
+        return results, None, False, ""
+    return results, started, p.returncode in (137, -9), p.stderr.decode("utf-8", "replace")
+
+
 def run_worker(h, reqs, d, tag):
-    """runs the worker over all images; a dead process is attributed to the image it was working on and the rest is
-    continued in a new process"""
+    """runs the worker over all images, in chunks, several processes at a time.  A process that dies is attributed to the
+    image it was working on (a crash the library did not contain) and the rest of its chunk goes to a new process.  A
+    process killed by the chunk's time limit proves nothing about the image it happened to be at: that image is run again
+    alone with its own limit, and only if it does not finish alone is it reported (as a hang)."""
+    from concurrent.futures import ThreadPoolExecutor
+    CH = 2500
+    chunks = [reqs[a:a + CH] for a in range(0, len(reqs), CH)]
+
+    def one(arg):
+        k, chunk = arg
+        results, crashed = {}, {}
+        todo = list(chunk)
+        rounds = 0
+        while todo:
+            rounds += 1
+            res, died, killed, err = _worker_once(h, todo, d, "%s-c%d-r%d" % (tag, k, rounds), 900)
+            results.update(res)
+            if died is None and not killed and len(res) < len(todo) and err:
+                raise Infra("worker died outside an image: %s" % err[-800:])
+            if died is None:
+                if killed:
+                    raise Infra("worker killed by the time limit outside an image")
+                break
+            ids = [r["id"] for r in todo]
+            if killed:
+                alone = [r for r in todo if r["id"] == died]
+                res1, died1, killed1, err1 = _worker_once(h, alone, d, "%s-c%d-alone%d" % (tag, k, rounds), 180)
+                results.update(res1)
+                if died1 is not None:
+                    crashed[died] = "did not finish within 180 s when run alone" if killed1 else ((err1[:300] + " ... " + err1[-300:]) if len(err1) > 700 else err1)
+            else:
+                crashed[died] = (err[:300] + " ... " + err[-300:]) if len(err) > 700 else err
+            todo = todo[ids.index(died) + 1:]
+            if rounds > 200:
+                raise Infra("too many worker crashes")
+        return results, crashed
     results, crashed = {}, {}
-    todo = list(reqs)
-    rounds = 0
-    while todo:
-        rounds += 1
-        inp, out = os.path.join(d, "%s-in%d.ndjson" % (tag, rounds)), os.path.join(d, "%s-out%d.ndjson" % (tag, rounds))
-        common.write_ndjson(inp, todo)
-        try:
-            p = subprocess.run(["timeout", "-s", "KILL", "1200", h, "worker", inp, out], stdout=subprocess.PIPE, stderr=subprocess.PIPE,
-                               env=dict(os.environ, GOMEMLIMIT="6GiB", GOMAXPROCS="4"), timeout=1300)
-        except subprocess.TimeoutExpired:
-            raise Infra("worker did not finish")
-        started = None
-        if os.path.exists(out):
-            for line in open(out):
-                try:
-                    r = json.loads(line)
-                except ValueError:
-                    continue
-                if "start" in r:
-                    started = r["start"]
-                else:
-                    results[r["id"]] = r
-                    started = None
-        if p.returncode == 0:
-            break
-        if started is None:
-            raise Infra("worker died outside an image (rc=%d): %s" % (p.returncode, p.stderr.decode("utf-8", "replace")[-800:]))
-        err = p.stderr.decode("utf-8", "replace")
-        crashed[started] = (err[:300] + " ... " + err[-300:]) if len(err) > 700 else err
-        ids = [r["id"] for r in todo]
-        todo = todo[ids.index(started) + 1:]
-        if rounds > 200:
-            raise Infra("too many worker crashes")
+    with ThreadPoolExecutor(max_workers=4) as ex:
+        for res, cr in ex.map(one, list(enumerate(chunks))):
+            results.update(res)
+            crashed.update(cr)
     return results, crashed
 
 
